@@ -183,7 +183,7 @@ def gen_history(rng, nops, keys, mix):
             ops.append('puthuge %s' % hexs(key))
         elif k == 'put':
             v = rand_val(rng)
-            ops.append('put %s %s' % (hexs(key), hexs(v)))
+            ops.append('%s %s %s' % ('putown' if rng.random() < 0.08 else 'put', hexs(key), hexs(v)))
             shadow[ck] = v
         elif k == 'putstr':
             s = rand_str(rng)
